@@ -497,6 +497,31 @@ pub fn c10(c: &Collector, g: &mut Guard) {
             local.transitions += 1;
             local.count("paired_runs");
             local.count("oracle_checks");
+            // display() called after an earlier display() must still be faithful to the cells (a row
+            // cache inside display() that one mutating path forgets to invalidate), also when the
+            // embedder cleared the dirty set in between (a cache keyed on `dirty`)
+            if let Ok((sw, b, _)) = &with {
+                let mut s3 = sw.clone();
+                if let Ok(Some(d3)) = apply(&mut s3, &Op::Display) {
+                    local.count("display_after_display");
+                    if let Some(m) = check_display(b, &d3) {
+                        viol(c, "C10", "E2.pair", t, "stale:display-after-display", format!("display(); {}; display(): {}", t.op.short(), m));
+                    }
+                }
+            }
+            let mut s4 = s2.clone();
+            if apply(&mut s4, &Op::ClearDirty).is_ok() {
+                if let Ok((s5, b5, _)) = run_op(&s4, t.op) {
+                    let mut s6 = s5.clone();
+                    if let Ok(Some(d6)) = apply(&mut s6, &Op::Display) {
+                        local.transitions += 1;
+                        local.count("display_clear_op_display");
+                        if let Some(m) = check_display(&b5, &d6) {
+                            viol(c, "C10", "E2.pair", t, "stale:display-after-clear", format!("display(); clear dirty; {}; display(): {}", t.op.short(), m));
+                        }
+                    }
+                }
+            }
             match (t.outcome, &with) {
                 (Ok((_, a, da)), Ok((_, b, db))) => {
                     if a != b {
@@ -665,6 +690,8 @@ pub fn c10(c: &Collector, g: &mut Guard) {
     c.bound("bfs_levels_3x2", json!(st.levels));
     c.bound("geometries", json!(gs));
     c.bound("bfs_depth", json!(depth));
+    g.need(c, "display_after_display");
+    g.need(c, "display_clear_op_display");
     g.need(c, "paired_runs");
     g.need(c, "display_calls");
     // (display_materialised_rows is informational only: it depends on the sparse representation)
@@ -2512,6 +2539,25 @@ pub fn c08(c: &Collector, g: &mut Guard) {
             c08_judge(c, t, "E4.parser", local);
         },
     );
+    // (5) histories without merging: every site that changes the rendition besides SGR (DECRC,
+    // reset, DECSCNM) between SGR calls - a memo of the last SGR transition must see them all
+    history_tree_j(
+        c,
+        "C08",
+        (3, 1),
+        vec![
+            Op::Sgr(vec![9]),
+            Op::Sgr(vec![0]),
+            Op::Sgr(vec![1]),
+            Op::Sgr(vec![31, 44]),
+            Op::SaveCursor,
+            Op::RestoreCursor,
+            Op::Reset,
+            Op::Sm(vec![5], true),
+        ],
+        if c.thorough() { 7 } else { 6 },
+        &|_| false,
+    );
     // palette: all 256 entries both keys (independent computation)
     for n in 0..256u32 {
         let _ = tables::palette(n);
@@ -2523,6 +2569,7 @@ pub fn c08(c: &Collector, g: &mut Guard) {
     g.need(c, "extended_forms");
     g.need(c, "long_lists");
     g.need(c, "tuples");
+    g.need(c, "tree_judged");
     g.need(c, "parser_path_transitions");
 }
 
